@@ -178,6 +178,11 @@ impl Envelope {
         for envelope in envelopes {
             for assertion in envelope.assertions_with_predicate(known_values::SSKR_SHARE) {
                 let share = assertion.subject().as_object().unwrap().extract_subject::<SSKRShare>()?;
+                // A share too short to carry its identifier is not a share
+                // (`identifier()` would index past its end).
+                if share.data().len() < 2 {
+                    bail!(EnvelopeError::InvalidShares);
+                }
                 let identifier = share.identifier();
                 result.entry(identifier).and_modify(|shares| shares.push(share.clone())).or_insert(vec![share]);
             }
